@@ -31,9 +31,12 @@ FetchPtrOpAllowed(ev) ==
 \* C09: the verifier ran once on a value the cell held, and what the caller gets is what the
 \* verifier saw
 FetchVerifyAllowed(ev) ==
-  /\ ev.out = "ok" /\ ev.calls = 1
-  /\ Some(ev.script, LAMBDA v : Eq(ev.seen, v))
-  /\ Eq(ev.used, ev.seen)
+  \/ /\ ev.out = "ok" /\ ev.calls = 1
+     /\ Some(ev.script, LAMBDA v : Eq(ev.seen, v))
+     /\ Eq(ev.used, ev.seen)
+  \* a value the application type cannot hold (guest type wider) may end the copy in an abort
+  \/ /\ ev.out = "abort" /\ "bits" \in DOMAIN ev
+     /\ Some(ev.script, LAMBDA v : ~InType(v, ev.bits, ev.signed))
 
 \* C09, copy_and_verify on a pointer cell: ev.vals[i] is the object at address ev.script[i]. The
 \* verifier gets a copy of the object at ONE of the addresses the cell held (null: a null copy);
